@@ -193,7 +193,7 @@ def main(tier):
             'documented operators over the program\'s own canonical output (distinct = operator tags and programs)')
     V = Verdict('C07', tier, rule)
     V.minima = {'parses': 1500, 'evaluations': 400, 'not_applicable_cases': 60} if tier == 'quick' else \
-        {'parses': 150000, 'evaluations': 20000, 'not_applicable_cases': 3000}
+        {'parses': 150000, 'evaluations': 15000, 'not_applicable_cases': 3000}
     V.assumptions = ['the model encodes only what print.mdx states; tuple element access and rendering are not judged',
                      'slices are evaluated only inside the bounds of the sequence (out-of-range bounds are C08 inputs)',
                      'identifiers starting with `true`/`false` and numbers beyond i64/usize are not generated here (C08 covers them)']
